@@ -178,8 +178,15 @@ func (m *M) check(b, route string, a Args, pre *snapshot, r *world.Result) {
 			m.used[once]++
 			if m.used[once] > m.issued(once) {
 				what := fmt.Sprintf("one-time credential (%s) enabled a second successful login as %q", strings.SplitN(once, "|", 2)[0], U)
-				m.violate("C12", "reuse:"+strings.SplitN(once, "|", 2)[0], what, b)
-				m.violate("C01", "reuse:"+strings.SplitN(once, "|", 2)[0], what, b)
+				kind := strings.SplitN(once, "|", 2)[0]
+				m.violate("C12", "reuse:"+kind, what, b)
+				m.violate("C01", "reuse:"+kind, what, b)
+				if kind == "reccode" || kind == "smscode" {
+					m.violate("C02", "reuse:"+kind, what, b)
+				}
+				if kind == "rm" {
+					m.violate("C07", "reuse:rm", what, b)
+				}
 			}
 		}
 		if lic == "" {
@@ -203,7 +210,7 @@ func (m *M) check(b, route string, a Args, pre *snapshot, r *world.Result) {
 				}
 			}
 			if sentTo != u.SMSPhoneNumber {
-				m.violate("C02", "sms_secret-unbound", fmt.Sprintf("pending login of %q completed with an SMS code that was sent to %q, not to its number %q", U, sentTo, u.SMSPhoneNumber), b)
+				m.violate("C02", "sms_secret-unbound:"+m.smsOrigin[a.Code], fmt.Sprintf("pending login of %q completed with an SMS code that was sent to %q, not to its number %q", U, sentTo, u.SMSPhoneNumber), b)
 			}
 		}
 
@@ -311,7 +318,12 @@ func (m *M) check(b, route string, a Args, pre *snapshot, r *world.Result) {
 		if u1 == nil || u1.Password == u0.Password {
 			continue
 		}
-		// pid's password changed in this request
+		// pid's password changed in this request: every cookie issued to pid so far is revoked
+		for ck, owner := range m.cookieOwner {
+			if owner == pid {
+				m.revoked[ck] = true
+			}
+		}
 		if cfg.Has("remember") && len(m.W.Store.Tokens[pid]) != 0 && r.Panic == "" && !r.Injected {
 			m.violate("C06", "tokens-kept", fmt.Sprintf("the password of %q was changed but its remember tokens still work", pid), b)
 		}
@@ -347,6 +359,16 @@ func (m *M) check(b, route string, a Args, pre *snapshot, r *world.Result) {
 		cookiePID = string(raw[:len(raw)-33])
 	}
 	mwAuth := rememberOn && oldU == "" && cookiePID != "" && rememberLicence(pre, cookiePID)
+	if mwAuth && newU == cookiePID && m.revoked[pre.cook["rm"]] {
+		m.violate("C07", "revoked-cookie", fmt.Sprintf("a remember cookie of %q issued before its password was changed still authenticated", cookiePID), b)
+	}
+	for _, e := range r.CookEv {
+		if e.K == int(authboss.ClientStateEventPut) && e.Key == "rm" {
+			if raw, err := base64.URLEncoding.DecodeString(e.Val); err == nil && len(raw) >= 33 {
+				m.cookieOwner[e.Val] = string(raw[:len(raw)-33])
+			}
+		}
+	}
 	if r.Wrote && r.Panic == "" {
 		asked := a.RM
 		if route == "oend" {
@@ -407,7 +429,9 @@ func (m *M) check(b, route string, a Args, pre *snapshot, r *world.Result) {
 			}
 		}
 	}
-	if post.Sess["uid"] != "" && post.Sess["last_action"] != "" {
+	if !r.Wrote || r.Panic != "" {
+		// nothing was flushed: the stamp in the jar is the one of the previous request, so is the harness' record
+	} else if post.Sess["uid"] != "" && post.Sess["last_action"] != "" {
 		if m.lastActU == nil {
 			m.lastActU = map[string]string{}
 		}
